@@ -1378,3 +1378,27 @@ func contiguousUpTo(r *RepData, n int) bool {
 //@   loop 2 invariant !badPreEncrypted ==> (all k string :: visited(k) && a.Reps[k] != rep && (a.Reps[k].ContentType == refRep.ContentType || a.Reps[k].PreEncrypted) ==> 1000*durOf(a.Reps[k])/a.Reps[k].MediaTimescale == a.LoopDurMS)
 //@   loop 2 invariant rangeidx >= 0 && rangeidx <= len(rep.Segments) && contiguousUpTo(rep, rangeidx)
 //@   loop 1 invariant !badPreEncrypted ==> (all k string :: visited(k) && (a.Reps[k].ContentType == refRep.ContentType || a.Reps[k].PreEncrypted) ==> 1000*durOf(a.Reps[k])/a.Reps[k].MediaTimescale == a.LoopDurMS)
+
+// ---------------------------------------------------------------------------
+// C16 (sequential part only): numbering of the segments a CMAF-ingest session sends
+
+// start: the session begins right after the newest ended segment (findLastSegNr at the session's
+// "now"), every upload round is made for the current number, which then advances by one, a
+// round is marked last only for the planned last number, a session with a duration of n
+// segments plans first+n-1 as its last number and ends once that number has been passed.
+//@ func (*cmafIngester).start
+//@   wiring
+//@   callsite findLastSegNr requires fromSessionNow: arg_nowMS == nowMS && arg_rep == (*c).asset.refRep
+//@   callsite sendMediaSegments requires currentNumber: arg2 == nextSegNr
+//@   callsite sendMediaSegments requires initsSentFirst: nrInitErrors == 0
+//@   callsite sendMediaSegments requires lastOnlyForPlannedLast: arg4 ==> nextSegNr == lastSegNrToSend
+//@   loop 1 invariant nrInitErrors >= 0
+//@   loop 2 invariant nrInitErrors == 0 && nextSegNr >= lastNr + 1 && ((*c).nrSegsToSend != nil ==> lastSegNrToSend == lastNr + *((*c).nrSegsToSend)) && ((*c).nrSegsToSend == nil ==> lastSegNrToSend == -1)
+//@   loop 3 invariant nrInitErrors == 0 && nextSegNr >= lastNr + 1 && ((*c).nrSegsToSend != nil ==> lastSegNrToSend == lastNr + *((*c).nrSegsToSend)) && ((*c).nrSegsToSend == nil ==> lastSegNrToSend == -1)
+//@   exit 6 requires plannedCount: (*c).nrSegsToSend != nil && lastSegNrToSend == (lastNr + 1) + *((*c).nrSegsToSend) - 1 && nextSegNr > lastSegNrToSend
+
+// sendMediaSegments: one upload per representation, all for the same segment number, instant and
+// last-flag, each with its representation's content type.
+//@ func (*cmafIngester).sendMediaSegments
+//@   wiring
+//@   callsite sendMediaSegment requires sameNumberForEveryRep: arg_segNr == nextSegNr && arg_isLast == isLast && arg_nowMS == nowMS && arg_contentType == rd.contentType
